@@ -64,6 +64,16 @@ impl CacheCfg {
         if self.max_size == 2 {
             b = b.on_hit(|| {}).on_miss(|| {}).on_eviction(|| {});
         }
+        // (shared store with max_size 1: made by SharedCacheLayer's own builder, which duplicates
+        // the settings of the plain one)
+        if self.shared && self.max_size == 1 {
+            let mut sb = tower_resilience_cache::SharedCacheLayer::<Req, trv_core::inner::WeakKey, Resp>::builder().max_size(self.max_size).eviction_policy(self.policy).key_extractor(|r: &Req| trv_core::inner::WeakKey(r.key));
+            if let Some(t) = self.ttl {
+                sb = sb.ttl(if t == TTL_FOREVER { Duration::MAX } else { Duration::from_millis(t) });
+            }
+            let sl = sb.build();
+            return (sl.clone().layer(GatedInner::new(inner.clone())), sl.layer(GatedInner::new(inner)));
+        }
         let layer = b.build();
         if self.shared {
             let sl = layer.shared::<Resp>();
